@@ -309,7 +309,8 @@ def lenient_concentration(text, wv):
             w = float(right[0]) if len(right) == 2 else 1.0
         except ValueError:
             raise rparse.Unreadable(text)
-        (mn, fn), (md, fd) = rparse.unit_ref(left[1]), rparse.unit_ref(right[-1])
+        # (a prefixed activity unit in a ratio, '5 mU/mL', is not a documented form; if it is read at all, then as SI says)
+        (mn, fn), (md, fd) = rparse.unit_ref(left[1], prefixed_U=True), rparse.unit_ref(right[-1], prefixed_U=True)
         if w == 0:
             raise rparse.Unreadable(text)
         return v * float(mn) / (w * float(md)), fn, fd
